@@ -330,3 +330,68 @@ def param_roles(body, **want):
         m = [i for i, ty in tys if (ty == pat if pat == "bool" else ty.rstrip(">").endswith(pat) or ("::" + pat + ">") in ty or ty.endswith(pat))]
         out[role] = m[0] if len(m) == 1 else None
     return out
+
+
+def altered_uses(term, targets, extra_wrappers=()):
+    """Occurrences of a value that reach `term` altered.  A use of one of `targets` is *clean* when it gets where it goes as
+    the same bytes: through borrows, clones, `to_vec`/`into`/`from` conversions, the `Bytes` newtype, `Some`, and selections
+    all of whose (reachable) branches are clean.  It is *altered* when it is the base of an in-place update (`upd`: fill,
+    copy_from_slice, element stores), of an index/slice projection, or one branch of a selection whose other branches are
+    something else.  -> list of the offending sub-terms (empty = every use is clean).  Selection conditions are not uses."""
+    from . import bytesview
+    strip = flow.strip_sites
+    tg = [strip(t) for t in targets if t is not None]
+    wr = tuple(bytesview._SAME_BYTES) + tuple(extra_wrappers)
+    mentions = lambda x: flow.term_contains(x, lambda y: isinstance(y, tuple) and strip(y) in tg)
+
+    def clean(x, d=0):
+        if not isinstance(x, tuple) or d > 40:
+            return False
+        if strip(x) in tg:
+            return True
+        if len(x) == 4 and x[0] == "call" and x[2] and isinstance(x[1], str) and any(names.is_(x[1], w) for w in wr):
+            return clean(x[2][0], d + 1)
+        if len(x) == 4 and x[0] == "agg" and len(x[3]) == 1 and (x[2] == "Some" or str(x[1]).rsplit("::", 1)[-1] in ("Bytes", "Value")):
+            return clean(x[3][0][1], d + 1)
+        if len(x) == 2 and x[0] == "payload":
+            return clean(x[1], d + 1)
+        if x and x[0] == "gamma":
+            brs = [v for l, v in x[2] if v != ("never",)]
+            return bool(brs) and all(clean(v, d + 1) for v in brs)
+        if x and x[0] == "phi":
+            brs = [v for v in x[1] if v != ("never",)]
+            return bool(brs) and all(clean(v, d + 1) for v in brs)
+        return False
+    bad = []
+
+    def walk(x, d=0):
+        if not isinstance(x, (tuple, frozenset)) or d > 200 or not mentions(x):
+            return
+        if isinstance(x, frozenset):
+            for y in x:
+                walk(y, d + 1)
+            return
+        if clean(x):
+            return
+        if x and x[0] in ("gamma", "phi"):
+            brs = [v for l, v in x[2]] if x[0] == "gamma" else list(x[1])
+            if any(clean(v) for v in brs):
+                bad.append(x)     # the value on one path, something else on another
+                return
+            for v in brs:
+                walk(v, d + 1)
+            return
+        if x and x[0] == "upd" and len(x) == 4 and mentions(x[2]):
+            bad.append(x)
+            return
+        if x and x[0] in ("with", "elem_at", "subslice_at") and len(x) > 1 and mentions(x[1]):
+            bad.append(x)
+            return
+        if len(x) == 4 and x[0] == "call" and isinstance(x[1], str) and x[2] and (names.is_(x[1], "Index::index") or names.is_(x[1], "IndexMut::index_mut") or names.is_(x[1], "slice::get") or names.is_(x[1], "slice::split_at")) and mentions(x[2][0]):
+            bad.append(x)
+            return
+        for y in x:
+            if isinstance(y, (tuple, frozenset)):
+                walk(y, d + 1)
+    walk(term)
+    return bad
